@@ -49,6 +49,7 @@ def repeatString (s : Bytes) (n : Num) : NRes :=
   if fltLt n (.flt 0) || n.isNaN then pure .null else
   let c := repeatCount n
   if (s.length : Int) * c ≥ maxInt32 then throw (.builtin "repeatStringTooLarge" [.str s, .num n])
+  else if s.isEmpty then pure (.str [])   -- strings.Repeat("", c): nothing to replicate
   else pure (.str (List.replicate c.toNat s).flatten)
 
 /-- bytes `repeatString` would produce (`none`: null or error); used by callers that must not
